@@ -377,6 +377,63 @@ func init() {
 				}
 			}
 		}
+		// … and sequentially, against an oracle that has no history (the pinned layout): for every frame type, a frame whose
+		// body fails to encode part-way, then the next frame of that type; scratch space that is recycled without being
+		// cleared shows up in the second frame whichever goroutine or pool slot it lands in
+		for _, ft := range frameTypes() {
+			var failing *Val
+			for _, e := range schema.Tables[ft.Frame.Tbl].Entries {
+				bt := schema.Types[e.Ty]
+				for i, op := range bt.fieldOps() {
+					var big *Val
+					switch {
+					case (op.K == "nums" || op.K == "fixeds" || op.K == "vstrs") && op.CW == 2:
+						big = &Val{K: 'N'}
+						if op.K == "nums" {
+							for k := 0; k < 65536; k++ {
+								big.Ns = append(big.Ns, uint64(k)&maxOf(op.W))
+							}
+						} else {
+							big.K = 'S'
+							for k := 0; k < 65536; k++ {
+								big.Ss = append(big.Ss, []byte("x"))
+							}
+						}
+					case op.K == "vstr" && op.PW == 2:
+						big = &Val{K: 's', S: bytes.Repeat([]byte("y"), 65536)}
+					}
+					if big != nil && i > 0 { // i > 0: something is written before the field that fails
+						body := g.msg(bt.ID, true, 0)
+						body.Fs[i] = big
+						failing = g.msgWithKey(ft.ID, e, true)
+						failing.Fs[len(ft.Frame.Hdr)+1] = body
+						break
+					}
+				}
+				if failing != nil {
+					break
+				}
+			}
+			if failing == nil {
+				continue
+			}
+			for rep := 0; rep < 3; rep++ {
+				es := schema.Tables[ft.Frame.Tbl].Entries
+				next := g.msgWithKey(ft.ID, es[g.r.Intn(len(es))], true)
+				ref, ok := renderPinned(next)
+				if !ok {
+					continue
+				}
+				f := goEnc(failing, nil, BufMode{})
+				r := goEnc(next, nil, BufMode{})
+				o.stat("failed-then-next:" + f.Class)
+				if f.Class == "err" && r.Class == "ok" && !bytes.Equal(r.Appended, ref) {
+					o.violate(Violation{Property: "C20", Kind: "direct", What: "after an encode that failed part-way, the next frame of that type is not what it is when encoded alone (state left behind by the failed call)",
+						Case: "enc - " + trunc(failing.String(), 600) + " ; enc - " + next.String(), Expected: trunc(hexOf(ref), 400), Observed: trunc(hexOf(r.Appended), 400), Key: "failed-then-next:" + ft.QName()})
+					break
+				}
+			}
+		}
 		bads := unknownKeyWires(g)
 		beginPhase("16 goroutines encoding and decoding their own messages")
 		workers := 16
